@@ -97,6 +97,26 @@ func pinnedSets() []pinnedSet {
 			},
 		},
 		{
+			// same name, different kinds, across services: custom scalar Time on one, enum Time on the other,
+			// no common field refers to it. Must be rejected whatever the services are called.
+			name: "kind-conflict-services",
+			set: [][]*schemaDef{
+				{sch(obj("Query", fld("now", named("SCALAR", "Time"))))},
+				{sch(enum("Time", "DAY", "NIGHT"), obj("Query", fld("greeting", tStr, arg("t", named("ENUM", "Time")))))},
+			},
+		},
+		{
+			// same name, different kinds, across versions of one service
+			name: "kind-conflict-versions",
+			set: [][]*schemaDef{
+				{
+					sch(obj("Query", fld("g", tI64), fld("now", named("SCALAR", "Time")))),
+					sch(enum("Time", "DAY", "NIGHT"), obj("Query", fld("g", tI64), fld("greeting", tStr, arg("t", named("ENUM", "Time"))))),
+				},
+				{sch(obj("Query", fld("h", tI64)))},
+			},
+		},
+		{
 			// control: two services, a rolling deploy that adds an optional argument, makes an
 			// output nullable and an argument required; everything executable by every version
 			name: "control",
